@@ -343,8 +343,8 @@ def execute(res, tier, seed, only=None):
     wargs = [(seed, tier, sh, total, os.path.join(wd, "ws32-%s-%d-%d.script" % (tier, seed, sh)), only) for sh in shards]
     with _pool(len(wargs)) as p:
         p.map(write_script, wargs)
-    jobs = [dict(args=["--arg", a[4]], tag="c32-%s-%d-%d" % (tier, seed, a[2]), replay=dict(seed=seed, tier=tier, shard=a[2])) for a in wargs]
-    outs = vlib.run_jobs(res, "asan", "h_ws", jobs, timeout=2400 if tier == "thorough" else 600,
+    jobs = [dict(args=["--arg", a[4], "--n1", 900 if tier == "thorough" else 180], tag="c32-%s-%d-%d" % (tier, seed, a[2]), replay=dict(seed=seed, tier=tier, shard=a[2])) for a in wargs]
+    outs = vlib.run_jobs(res, "asan", "h_ws", jobs, timeout=3600 if tier == "thorough" else 600,
                          env_extra=None if only is not None else {"UBSAN_OPTIONS": "print_stacktrace=0:halt_on_error=1"})
     jargs = [(seed, tier, a[2], total, o["out"], only) for a, o in zip(wargs, outs)]
     with _pool(len(jargs)) as p:
